@@ -150,7 +150,7 @@ type (
 		Ghost bool
 	}
 	EIndex struct{ X, I Expr }
-	ESlice struct{ X, Lo, Hi Expr }
+	ESlice struct{ X, Lo, Hi, Max Expr }
 	ECall  struct {
 		Fn   string
 		Args []Expr
@@ -278,8 +278,8 @@ func (ps *parser) quant() Expr {
 				ps.fail("expected bound variable")
 			}
 			v := QVar{Name: t.text, Typ: "int"}
-			if ps.peek().kind == tIdent {
-				v.Typ = ps.next().text
+			if ps.peek().kind == tIdent || ps.isOp("[") || ps.isOp("*") {
+				v.Typ = ps.typeName()
 			}
 			vars = append(vars, v)
 			if ps.isOp(",") {
@@ -457,8 +457,13 @@ func (ps *parser) postfix() Expr {
 				if !ps.isOp("]") {
 					hi = ps.quant()
 				}
+				var mx Expr
+				if ps.isOp(":") {
+					ps.p++
+					mx = ps.quant()
+				}
 				ps.expectOp("]")
-				x = &ESlice{x, nil, hi}
+				x = &ESlice{x, nil, hi, mx}
 				continue
 			}
 			lo = ps.quant()
@@ -467,8 +472,13 @@ func (ps *parser) postfix() Expr {
 				if !ps.isOp("]") {
 					hi = ps.quant()
 				}
+				var mx Expr
+				if ps.isOp(":") {
+					ps.p++
+					mx = ps.quant()
+				}
 				ps.expectOp("]")
-				x = &ESlice{x, lo, hi}
+				x = &ESlice{x, lo, hi, mx}
 				continue
 			}
 			ps.expectOp("]")
